@@ -56,6 +56,12 @@ pub fn suffix_str(k: i64) -> String {
     }
 }
 
+/// A suffix so long (254 octets) that no name can be put in front of it.
+pub fn suffix_str_long(k: i64) -> String {
+    let l63 = "a".repeat(63);
+    format!("s{}.{}.{}.{}.{}.test.", k, l63, l63, l63, "a".repeat(52))
+}
+
 /// The absolute name of candidate `k` for the caller's name.
 pub fn cand_name(dots: usize, k: i64) -> String {
     let rel = format!("{}", rel_name(dots));
